@@ -548,6 +548,7 @@ class Entity:
         self.poll_armed = False
         self.nodrain = False
         self.drained: dict[str, bool] = {}
+        self.lk = None  # LinkCfg of this entity's pair (None: the link's global settings)
         self.peer: "Entity | None" = None  # the entity at the other end of this entity's link
         self.tape = world.tape  # tape deciding link faults / pacing of what this entity sends
 
@@ -561,6 +562,15 @@ class Entity:
         elif not snap.busy and live is not None:
             self.closed[hk].add(live)
             self.live_tid[hk] = None
+
+
+class LinkCfg:
+    """Fault settings of one entity pair."""
+
+    def __init__(self, enabled=(), rate=(0, 1), budget=None):
+        self.enabled = set(enabled)
+        self.rate = rate
+        self.budget = budget
 
 
 class Link:
@@ -607,10 +617,11 @@ class Link:
             return
         lat = w.cfg.lat_ms
         fault = None
-        if self.enabled and (self.budget is None or self.budget > 0):
-            num, den = self.rate
+        L = src_ent.lk or self  # link fault settings: per entity pair when set (C11), else global
+        if L.enabled and (L.budget is None or L.budget > 0):
+            num, den = L.rate
             if t.chance(num, den, f"fault? {key}"):
-                kinds = [k for k in self.KINDS if k in self.enabled]
+                kinds = [k for k in self.KINDS if k in L.enabled]
                 if "corrupt" in kinds and em.kind != "FD":
                     kinds.remove("corrupt")
                 if kinds:
@@ -618,8 +629,8 @@ class Link:
         if fault is None:
             w.push(w.clock.t + lat, ("arr", dst, em.raw))
             return
-        if self.budget is not None:
-            self.budget -= 1
+        if L.budget is not None:
+            L.budget -= 1
         self.fired[fault] += 1
         self.last_fault_t = w.clock.t
         self.hit_log.append((fault, key, em.info, w.a.handlers["src"].step.name, w.b.handlers["dst"].step.name))
